@@ -291,6 +291,51 @@ func c16Timestamp(c *Ctx, p *Prog, m *Model) {
 			seenLayout[layKey] = true
 			r.Ok("R16.2", layKey, p.Pos(instrPos(af)), "uses %s", gotLay)
 		}
+		// the text AppendFormat rendered is the text that lands in the record: its result is stored as the encoder's
+		// buffer, or handed (itself or a re-slice) to append/copy/a write method - not merely measured
+		if afv, isV := af.(*ssa.Call); isV {
+			landed, seenR := false, map[ssa.Value]bool{}
+			var follow func(v ssa.Value, d int)
+			follow = func(v ssa.Value, d int) {
+				if landed || seenR[v] || d > 6 || v.Referrers() == nil {
+					return
+				}
+				seenR[v] = true
+				for _, ref := range *v.Referrers() {
+					switch x := ref.(type) {
+					case *ssa.Store:
+						if x.Val == v {
+							landed = true
+						}
+					case *ssa.Slice:
+						follow(x, d+1)
+					case *ssa.Phi:
+						follow(x, d+1)
+					case *ssa.Convert:
+						follow(x, d+1)
+					case *ssa.ChangeType:
+						follow(x, d+1)
+					case *ssa.Return:
+						landed = true
+					case ssa.CallInstruction:
+						if bc, isB := x.Common().Value.(*ssa.Builtin); isB && bc.Name() == "len" || isB && bc.Name() == "cap" {
+							continue
+						}
+						for _, a := range x.Common().Args {
+							if a == v {
+								landed = true
+							}
+						}
+					}
+				}
+			}
+			follow(afv, 0)
+			landKey := fmt.Sprintf("format-lands[%s]:%s", modeStr(a), shortName(afv.Parent()))
+			if !seenZone[landKey] {
+				seenZone[landKey] = true
+				r.Check(landed, "R16.3", landKey, p.Pos(instrPos(af)), "the slice AppendFormat returns is what is stored in / appended to the record", "the slice time.Time.AppendFormat returns is only measured, never stored or copied: the bytes put into the record come from somewhere else (a scratch array the rendering may have outgrown), so a long layout prints a truncated or stale timestamp that does not parse back")
+			}
+		}
 		if !seenZone[fmtKey] {
 			seenZone[fmtKey] = true
 			r.Ok("R16.3", fmtKey, p.Pos(instrPos(af)), "one time.Time.AppendFormat of the zone-adjusted argument with the decided layout")
@@ -535,6 +580,65 @@ func c16Timestamp(c *Ctx, p *Prog, m *Model) {
 				if cs, isC := constString(sv); isC && cs == "" {
 					unset = true
 				}
+			}
+			// ... including an empty ELEMENT of the argument list: an element reaches the stored value only on an edge
+			// that a non-emptiness test of that element dominates (SetTimeFormat(layout, "") keeps layout)
+			{
+				seenE := map[ssa.Value]bool{}
+				var walkE func(v ssa.Value, d int)
+				nonEmptyGuarded := func(e ssa.Value, from *ssa.BasicBlock) bool {
+					for _, g := range guardsOf(from) {
+						cond, neg := normCond(g.If.Cond)
+						bo, isB := cond.(*ssa.BinOp)
+						if !isB {
+							continue
+						}
+						takenTrue := (g.Succ == 0) != neg
+						if strip(bo.X) == e {
+							if cs, isC := constString(bo.Y); isC && cs == "" {
+								if (bo.Op == token.NEQ && takenTrue) || (bo.Op == token.EQL && !takenTrue) {
+									return true
+								}
+							}
+						}
+						if lc, isL := bo.X.(*ssa.Call); isL && isBuiltinCall(lc, "len") && len(lc.Call.Args) == 1 && strip(lc.Call.Args[0]) == e {
+							if k, isK := bo.Y.(*ssa.Const); isK && k.Value != nil && k.Value.Kind() == constant.Int {
+								if z, _ := constant.Int64Val(k.Value); z == 0 {
+									if ((bo.Op == token.NEQ || bo.Op == token.GTR) && takenTrue) || ((bo.Op == token.EQL || bo.Op == token.LEQ) && !takenTrue) {
+										return true
+									}
+								}
+							}
+						}
+					}
+					return false
+				}
+				walkE = func(v ssa.Value, d int) {
+					if v == nil || seenE[v] || d > 8 {
+						return
+					}
+					seenE[v] = true
+					if ph, isP := v.(*ssa.Phi); isP {
+						for i, e := range ph.Edges {
+							se := strip(e)
+							if _, isC := se.(*ssa.Const); isC {
+								continue
+							}
+							if _, isP2 := se.(*ssa.Phi); isP2 {
+								walkE(se, d+1)
+								continue
+							}
+							if isStringT(se.Type()) && dependsOnParam(se, st.Params[1]) && i < len(ph.Block().Preds) && !nonEmptyGuarded(se, ph.Block().Preds[i]) {
+								unset = true
+							}
+						}
+						return
+					}
+					if _, isC := v.(*ssa.Const); !isC && isStringT(v.Type()) && dependsOnParam(v, st.Params[1]) && !nonEmptyGuarded(v, fs.Instr.Block()) {
+						unset = true
+					}
+				}
+				walkE(strip(fs.Val), 0)
 			}
 			r.Check(!unset, "R16.4", "Entry.SetTimeFormat:pinned", p.Pos(instrPos(fs.Instr)), "no path stores the empty layout", "on some path SetTimeFormat stores the empty layout although a layout was given: the logger then follows the flags again, so a later flag change alters a layout that was set explicitly")
 		}
